@@ -30,7 +30,7 @@ ASSUMPTIONS = [
     "by the live-vs-model comparison (the model has value semantics) and by C05's persisted-vs-live runs",
 ]
 
-FAM = progs.family(p_join_retry=0.7, p_pub_dict=0.35, p_publish=0.6, n_tasks=(3, 8), p_join=0.7, p_join_count=0.5, p_items=0.25, p_loop=0.2, p_retry=0.35, p_late_join=0.5, p_fail=0.3,
+FAM = progs.family(p_join_items=0.6, p_cleanup_fail=0.25, p_item_fail=0.3, p_join_retry=0.5, p_pub_dict=0.35, p_publish=0.6, n_tasks=(3, 8), p_join=0.7, p_join_count=0.5, p_items=0.4, p_loop=0.2, p_retry=0.35, p_late_join=0.5, p_fail=0.3,
                    steps=(15, 70))
 
 
@@ -60,7 +60,7 @@ def gen_with_opaque_input(rng, fam):
 
 def run(ctx):
     out = common.conductor_run(
-        ctx, "C18", FAM, common.project_full, monitors.c18, features, nontrivial, 500, 6000,
+        ctx, "C18", FAM, common.project_full, monitors.c18, features, nontrivial, 800, 8000,
         rule="generated definitions weighted to multi-referenced tasks, joins, with-items, loops and retries with random "
              "histories; non-trivial = at least 4 execution records and 3 context snapshots; distinct = distinct "
              "(definition, operation list)")
